@@ -171,6 +171,13 @@ def base_files(ctx):
             g.set_data([a])
             xd = a.new_extension_dict()
             xd.add_xrecord("X").reset([(1, "p")])
+            # nested (soft-owner) dictionaries, the child stored in OBJECTS in front of its parent
+            parent = doc.rootdict.add_new_dict("VERIF_PARENT")
+            child = parent.add_new_dict("SUB")
+            child.add_xrecord("PAYLOAD").reset([(1, "nested")])
+            es = doc.objects.get_entity_space().entities
+            es.remove(child)
+            es.insert(es.index(parent), child)
             doc.layouts.new("Second")
         s = io.StringIO()
         doc.write(s)
@@ -338,7 +345,14 @@ def oracle(ctx):
             by_kind.setdefault(k, []).append((k, i))
         # every single fault kind at a few positions, then random pairs and triples
         singles = [f for k in sorted(by_kind) for f in rng.sample(by_kind[k], min(len(by_kind[k]), ctx.n(2, 12)))]
-        for f in singles:
+        # every entry pointer of the root dictionary (the first DICTIONARY of OBJECTS), one fault each
+        first_dict = next((i for i, t in enumerate(tags) if t == (0, "DICTIONARY")), None)   # none in R12
+        j = len(tags) if first_dict is None else first_dict + 1
+        while j < len(tags) and tags[j][0] != 0:
+            if tags[j][0] in (350, 360):
+                singles.append(("dangling-pointer", j))
+            j += 1
+        for f in dict.fromkeys(singles):
             converge(ctx, version, tags, [f], VCODE[version])
         for _ in range(ctx.n(12, 300)):
             k = rng.choice([2, 3])
